@@ -6,7 +6,7 @@ import ast
 from typing import List, Optional, Set, Tuple
 
 from ..cfg import CFG
-from ..model import Func, own_nodes, unparse
+from ..model import dotted, Func, own_nodes, unparse
 from ..pipeline import Pipeline
 from ..util import assignments_to, calls, const_str, names_in
 from ..values import texts
@@ -110,6 +110,13 @@ def check(ctx) -> None:
             q = tgt[1] if tgt and tgt[0] in ("func", "class") else ""
             if any(q.startswith(p) for p in ANALYSIS_PREFIXES):
                 fallible.append((c, q, {"Exception"}))
+            elif not q:
+                # toolkit calls on objects produced by the analysis (MolToSmiles(None) raises)
+                d = dotted(c.func) or ""
+                root = d.split(".")[0]
+                r = prog.resolve_dotted(f.module, root) if root else None
+                if isinstance(r, str) and r.split(".")[0] == "rdkit" and "." in d:
+                    fallible.append((c, d, {"Exception"}))
             if isinstance(c.func, ast.Attribute) and c.func.attr == "get" and c.args and not c.keywords and isinstance(c.func.value, ast.Name) and "result" in c.func.value.id:
                 fallible.append((c, "AsyncResult.get", {"TimeoutError"}))
             if isinstance(c.func, ast.Attribute) and c.func.attr == "apply_async":
@@ -167,7 +174,32 @@ def check(ctx) -> None:
                 isinstance(w, ast.withitem) and isinstance(w.optional_vars, ast.Name) and w.optional_vars.id == recv.id and isinstance(w.context_expr, ast.Call) and unparse(w.context_expr.func).split(".")[-1] in ("ThreadPool", "Pool", "ThreadPoolExecutor")
                 for w in own_nodes(f.node)
             )
-            ok = (local and len(term) >= 1) or managed
+            # does leaving the job wait for a worker that is still running?  (library facts: ThreadPool.__exit__ and
+            # terminate() do not join a busy worker; Executor.__exit__ is shutdown(wait=True), which does)
+            kind = None
+            for p_ in pools:
+                if isinstance(p_.targets[0], ast.Name) and isinstance(recv, ast.Name) and p_.targets[0].id == recv.id:
+                    kind = unparse(p_.value.func).split(".")[-1]
+            for w in own_nodes(f.node):
+                if isinstance(w, ast.withitem) and isinstance(w.optional_vars, ast.Name) and isinstance(recv, ast.Name) and w.optional_vars.id == recv.id and isinstance(w.context_expr, ast.Call):
+                    kind = unparse(w.context_expr.func).split(".")[-1]
+            blocking = None
+            if kind in ("ThreadPoolExecutor", "ProcessPoolExecutor"):
+                if managed:
+                    blocking = "leaving `with %s(...)` calls shutdown(wait=True)" % kind
+                for c in term:
+                    if c.func.attr == "shutdown":
+                        wv = next((k.value for k in c.keywords if k.arg == "wait"), c.args[0] if c.args else None)
+                        if not (isinstance(wv, ast.Constant) and wv.value is False):
+                            blocking = "shutdown() waits for the running job"
+            joins = [c for c in calls(f) if isinstance(c.func, ast.Attribute) and c.func.attr == "join" and unparse(c.func.value) == unparse(recv)]
+            if joins:
+                blocking = "%s.join() waits for the running job" % unparse(recv)
+            ok = ((local and len(term) >= 1) or managed) and blocking is None
+            if blocking is not None:
+                ctx.instance("C11-X5", "%s: releasing %s blocks until the job returns (%s)" % (short, unparse(recv), blocking), f.loc(a), ok=False)
+                ctx.finding("C11-X5", "%s:watchdog-waits-for-job" % short, f.loc(a), "the time limit on the job is not enforced: %s, so a search that hangs or overruns holds up the whole batch" % blocking)
+                continue
             ctx.instance("C11-X5", "%s: job submitted to %s (created in the job: %s, terminated: %d site(s))" % (short, unparse(recv), local, len(term)), f.loc(a), ok=ok)
             if not ok:
                 ctx.finding("C11-X5", "%s:shared-watchdog-pool" % short, f.loc(a), "the job is submitted to %s, which is not a pool created and terminated inside this job: a search that runs past its timeout keeps the shared worker busy and the following, unaffected reactions time out behind it" % unparse(recv))
